@@ -13,6 +13,7 @@
 //     machines: Run returns an error, no Worker.Run RPC is ever made, and
 //     Worker.Compile is attempted at most once per machine and invocation.
 // (c) FuncLocationsDiff on all pairs of lists of length <= 4 over {a,b,c}.
+// (d) see dag.go.
 package main
 
 import (
@@ -42,7 +43,8 @@ import (
 
 var childFlag = flag.Bool("c16child", false, "internal: run as decode/compile server (child process)")
 var bFlag = flag.String("c16b", "", "internal: run one part-(b) scenario in this (child) process: fn;machines;val,val,...")
-var onlyFlag = flag.String("only", "", "only run parts: any of a,b,c")
+var dFlag = flag.String("c16d", "", "internal: run one part-(d) scenario in this (child) process")
+var onlyFlag = flag.String("only", "", "only run parts: any of a,b,c,d")
 
 // ---- cases of part (a) ---------------------------------------------------------------
 
@@ -372,6 +374,10 @@ func main() {
 		bChildMain(*bFlag)
 		return
 	}
+	if *dFlag != "" {
+		dagChildMain(*dFlag)
+		return
+	}
 	vsys.Quiet()
 	vsys.FastRetries()
 	r := ev.Start("C16", "exploration")
@@ -658,6 +664,82 @@ func main() {
 		cov["b_runs_that_failed_to_encode"] = nFired
 	}
 
+	// ---------------- (d) ----------------
+	if want("d") {
+		rounds := 4
+		if r.Thorough() {
+			rounds = 16
+		}
+		type dtask struct {
+			sc    dagScenario
+			round int
+		}
+		var dtasks []dtask
+		for round := 0; round < rounds; round++ {
+			for _, sc := range dagScenarios {
+				dtasks = append(dtasks, dtask{sc, round})
+			}
+		}
+		var nRuns, nFresh, nFreshMachines, nOK, nSkipped int64
+		ev.Parallel(len(dtasks), 6, func(i int) {
+			t := dtasks[i]
+			var res dagResult
+			for attempt := 0; attempt < 3; attempt++ {
+				res = runDagChild(t.sc.name)
+				// hangs and set-up failures (producer runs) are re-run: verifsystem's 60 ms
+				// keepalive deadline kills machines on an overloaded host
+				if !res.Hang && res.SetupErr == "" && !strings.Contains(res.ErrText, "too many tries: lost on") {
+					break
+				}
+			}
+			atomic.AddInt64(&nRuns, 1)
+			atomic.AddInt64(&evaluations, 1)
+			if res.FreshCompiles > 0 {
+				atomic.AddInt64(&nFresh, 1)
+				atomic.AddInt64(&nFreshMachines, int64(res.FreshCompiles))
+			}
+			want := t.sc.expectedRows()
+			det := map[string]interface{}{"scenario": t.sc.name, "round": t.round, "err": res.ErrText, "machines_started": res.Machines,
+				"machines_that_compiled_the_join": res.JoinCompiles, "of_which_fresh": res.FreshCompiles, "rows": res.Rows, "want_rows": want, "crash": res.Crash}
+			switch {
+			case res.SetupErr != "":
+				atomic.AddInt64(&nSkipped, 1)
+				r.NotExhaustive(fmt.Sprintf("(d) scenario %s round %d skipped, set-up failed: %s", t.sc.name, t.round, res.SetupErr))
+			case res.Crash != "":
+				outcomes.Add("d:driver-crash")
+				col.add(3e6+i, "C16/result-dag/driver-crash/"+t.sc.name, "running an invocation whose Result arguments form a DAG crashes the driver", det)
+			case res.Hang, strings.Contains(res.ErrText, "too many tries: lost on"):
+				// Machines of the test bed die under overload (keepalive deadline); progress
+				// under machine loss is C02's subject. Not judged here.
+				outcomes.Add("d:no-progress(not judged)")
+				atomic.AddInt64(&nSkipped, 1)
+				r.NotExhaustive(fmt.Sprintf("(d) scenario %s round %d: no progress in 3 attempts (machines lost); not judged", t.sc.name, t.round))
+			case res.Failed:
+				cls := "other-error"
+				if strings.Contains(res.ErrText, "invalid invocation reference") {
+					cls = "invalid-invocation-reference"
+				}
+				outcomes.Add("d:run-fails/" + cls)
+				col.add(3e6+i, "C16/result-dag/run-fails/"+cls, "Run of an invocation whose Result arguments form a DAG fails on the cluster", det)
+			case strings.Join(res.Rows, ",") != strings.Join(want, ","):
+				outcomes.Add("d:wrong-rows")
+				col.add(3e6+i, "C16/result-dag/wrong-rows/"+t.sc.name, "an invocation whose Result arguments form a DAG yields the wrong rows on the cluster", det)
+			default:
+				outcomes.Add("d:ok")
+				atomic.AddInt64(&nOK, 1)
+			}
+		})
+		if nFresh == 0 {
+			r.NotExhaustive("(d) in no run was the join compiled on a machine that had compiled none of its dependencies")
+		}
+		nontrivial += nFresh
+		cov["d_scenarios"] = len(dagScenarios)
+		cov["d_cluster_runs"] = nRuns
+		cov["d_runs_ok"] = nOK
+		cov["d_runs_with_join_on_fresh_machine"] = nFresh
+		cov["d_fresh_machine_compilations_of_the_join"] = nFreshMachines
+	}
+
 	// ---------------- (c) ----------------
 	if want("c") {
 		maxLen := 4
@@ -696,7 +778,7 @@ func main() {
 	cov["distinct_nontrivial"] = nontrivial
 	cov["distinct_outcomes"] = outcomes.Distinct()
 	cov["outcomes"] = outcomes.Keys()
-	cov["rule"] = "(a) the cross product of per-type argument domains for 13 registered Funcs (int, string, float64, []int, map, struct, *struct, interface{}, user interface, bigslice.Slice, *exec.Result; zero values, typed/untyped nil, interfaces holding each registered concrete type, results and nested results), x machine combiners off/on: one evaluation per real decode and per worker view (in-process, child process); (b) one evaluation per cluster run of an unencodable argument list (designed kinds + one representative of every class the codec rejected in (a)) x {1,2} machines; (c) one evaluation per ordered pair of lists. distinct_nontrivial = distinct argument lists (by Func and canonical description) that were transported and verified on a worker + cluster runs in which the encode failure actually occurred + pairs with a non-empty diff"
+	cov["rule"] = "(a) the cross product of per-type argument domains for 13 registered Funcs (int, string, float64, []int, map, struct, *struct, interface{}, user interface, bigslice.Slice, *exec.Result; zero values, typed/untyped nil, interfaces holding each registered concrete type, results and nested results), x machine combiners off/on: one evaluation per real decode and per worker view (in-process, child process); (b) one evaluation per cluster run of an unencodable argument list (designed kinds + one representative of every class the codec rejected in (a)) x {1,2} machines; (c) one evaluation per ordered pair of lists; (d) one evaluation per end-to-end cluster run of an invocation whose Result arguments form a DAG (7 shapes x rounds), the join placed on freshly started machines. distinct_nontrivial = (d) runs in which the join was compiled on a machine that had compiled none of its dependencies + distinct argument lists (by Func and canonical description) that were transported and verified on a worker + cluster runs in which the encode failure actually occurred + pairs with a non-empty diff"
 	r.Finish(cov)
 }
 
